@@ -729,9 +729,9 @@ Qed.
 
 (* the body of a function: its last statement, if an expression, is returned *)
 Lemma L_fb_of g : (forall fl, L_expr pv sv bound u fl g) -> (forall fl, L_stmts pv sv bound u fl g) ->
-  (forall fl, L_fexpr pv sv bound u fl g) -> forall fl, L_fb pv sv bound u fl g.
+  (forall fl, L_fexpr pv sv bound u fl g) -> (forall fl g', g = S g' -> L_fexpr pv sv bound u fl g') -> forall fl, L_fb pv sv bound u fl g.
 Proof.
-  intros IHe IHs IHX fl k body rk ctx c code c' sc l Hlow Hcheck. unfold lower_fbody in Hlow.
+  intros IHe IHs IHX IHXp fl k body rk ctx c code c' sc l Hlow Hcheck. unfold lower_fbody in Hlow.
   destruct (rev body) as [|last init_rev] eqn:Hrev.
   - apply ret_ok in Hlow as [<- <-]. eexists _, _. apply cshape_nil.
   - assert (Hbody : body = rev init_rev ++ [last]) by (rewrite <- (rev_involutive body), Hrev; reflexivity).
@@ -754,17 +754,27 @@ Proof.
       pose proof Hs2 as (_ & ? & _).
       eexists _, _. eapply cshape_app; [exact Hs1|]. eapply cshape_app; [exact Hs2|].
       apply (cshape_plain u l2 (IReturn rv) c' c'); [lia | reflexivity | reflexivity | reflexivity].
-    + (* a function result: the last statement is a function-valued expression *)
-      rewrite split_last_app in Hcheck. destruct last; try discriminate Hcheck.
+    + (* a function result: the last statement is a function-valued expression, or ret of one *)
+      rewrite split_last_app in Hcheck.
+      destruct (tail_fexpr last) as [fx|] eqn:Htl; [|discriminate Hcheck].
       apply andb_prop in Hcheck as [_ Hcheck].
       destruct (frag_stmts pv sv bound fl k sc (rev init_rev)) as [[sc1 fl1]|] eqn:Hfi; [|discriminate Hcheck].
-      destruct (frag_fexpr pv sv bound fl1 k sc1 value) as [K|] eqn:Hfe; [|discriminate Hcheck].
+      destruct (frag_fexpr pv sv bound fl1 k sc1 fx) as [K|] eqn:Hfe; [|discriminate Hcheck].
       destruct (IHs fl k (rev init_rev) ctx c cs c0 sc (sc1, fl1) l Hmi Hfi) as (b1 & l1 & Hs1).
-      mon Hm0. destruct a as [cv rv]. cbn [fst snd] in *.
-      destruct (IHX fl1 k value K ctx c0 cv rv c' sc1 l1 Hm Hfe) as (b2 & l2 & Hs2 & _).
-      pose proof Hs2 as (_ & ? & _).
-      eexists _, _. eapply cshape_app; [exact Hs1|]. eapply cshape_app; [exact Hs2|].
-      apply (cshape_plain u l2 (IReturn rv) c' c'); [lia | reflexivity | reflexivity | reflexivity].
+      destruct last; try discriminate Htl.
+      * (* ret fx *)
+        destruct value as [value|]; [|discriminate Htl]. cbn [tail_fexpr] in Htl. inversion Htl; subst fx.
+        destruct g as [|g']; [discriminate Hm0|]. cbn [statement] in Hm0. mon Hm0. destruct a as [cv rv]. cbn [fst snd] in *.
+        destruct (IHXp fl1 g' eq_refl k value K ctx c0 cv rv c' sc1 l1 Hm Hfe) as (b2 & l2 & Hs2 & _).
+        pose proof Hs2 as (_ & ? & _).
+        eexists _, _. eapply cshape_app; [exact Hs1|]. eapply cshape_app; [exact Hs2|].
+        apply (cshape_plain u l2 (IReturn rv) c' c'); [lia | reflexivity | reflexivity | reflexivity].
+      * cbn [tail_fexpr] in Htl. inversion Htl; subst fx.
+        mon Hm0. destruct a as [cv rv]. cbn [fst snd] in *.
+        destruct (IHX fl1 k value K ctx c0 cv rv c' sc1 l1 Hm Hfe) as (b2 & l2 & Hs2 & _).
+        pose proof Hs2 as (_ & ? & _).
+        eexists _, _. eapply cshape_app; [exact Hs1|]. eapply cshape_app; [exact Hs2|].
+        apply (cshape_plain u l2 (IReturn rv) c' c'); [lia | reflexivity | reflexivity | reflexivity].
 Qed.
 
 Lemma L_fexpr_zero fl : L_fexpr pv sv bound u fl O.
@@ -779,7 +789,7 @@ Proof.
     assert (Hs0 : forall fl, L_stmts pv sv bound u fl O).
     { apply L_stmts_of; [intros fl; apply L_stmt_zero | intros fl g2 H; discriminate H | intros fl g2 H; discriminate H]. }
     intros fl. split; [apply L_expr_zero|]. split; [apply L_stmt_zero|]. split; [apply Hs0|].
-    split; [|apply L_fexpr_zero]. apply L_fb_of; [intros fl'; apply L_expr_zero | exact Hs0 | apply L_fexpr_zero].
+    split; [|apply L_fexpr_zero]. apply L_fb_of; [intros fl'; apply L_expr_zero | exact Hs0 | apply L_fexpr_zero | intros fl' g' H; discriminate H].
   - destruct (Nat.eq_dec g' (S g)) as [->|Hne]; [|apply IH; lia].
     assert (He : forall g', (g' <= g)%nat -> forall fl, L_expr pv sv bound u fl g') by (intros g'' H fl; apply IH; exact H).
     assert (Hs : forall fl, L_stmts pv sv bound u fl g) by (intros fl; apply (IH g (Nat.le_refl g) fl)).
@@ -790,7 +800,8 @@ Proof.
     assert (Hx1 : forall fl, L_fexpr pv sv bound u fl (S g)) by (intros fl; apply L_fexpr_succ; [apply He; lia | apply Hx | exact Hb]).
     assert (Hss1 : forall fl, L_stmts pv sv bound u fl (S g)).
     { apply L_stmts_of; [exact Hst1 | intros fl g2 Heq; apply (IH g2); lia | intros fl g2 Heq; apply (IH g2); lia]. }
-    intros fl. split; [apply He1|]. split; [apply Hst1|]. split; [apply Hss1|]. split; [|apply Hx1]. apply L_fb_of; assumption.
+    intros fl. split; [apply He1|]. split; [apply Hst1|]. split; [apply Hss1|]. split; [|apply Hx1]. apply L_fb_of; try assumption.
+    intros fl' g' Heq. inversion Heq; subst g'. apply Hx.
 Qed.
 
 Theorem L_expr_all fl g : L_expr pv sv bound u fl g.
